@@ -11,7 +11,8 @@ DEFAULTS = {"MAX_VARIABLES": 1000, "MAX_STRING_LENGTH": 1024, "MAX_COLLECTION_SI
 
 
 def prog_of(pspec):
-    r = random.Random(pspec["seed"])
+    # not the scenario generator's own stream again (its first draws decide the arm: the program would be correlated)
+    r = random.Random(pspec["seed"] * 7919 + 13)
     o = pspec["opts"]
     lines, names = hostgen.gen_local_stmts(r, n=o.get("n"), offenders=o.get("offenders", False),
                                            big=o.get("big", False), sharing=o.get("sharing", False),
